@@ -7,6 +7,7 @@ From Coq Require Import ZifyBool ZifyN ZifyNat Permutation.
 From AQ Require Import Lib.Bytes Rlp.RlpSpec Trie.MptSpec Trie.TrieModel Trie.TrieInv Trie.TrieProofs
   Trie.MptSpecProofs Trie.TrieContentProofs Trie.TrieCodecDefs Trie.TrieReopenProofs Trie.TrieLazyDefs
   Trie.TrieLazyInsertProofs Trie.TrieLazyDeleteProofs Trie.TrieLazyGetProofs Trie.TrieLazyCommitProofs
+  Trie.TrieIterProofs Trie.TrieLazyIterProofs Trie.TrieLazyProveProofs
   Trie.TrieFitsProofs.
 Local Open Scope N_scope.
 
@@ -99,81 +100,244 @@ Proof.
   split; [exact Hs'|]. split; [exact Hmono|]. exists m. auto.
 Qed.
 
-(* side conditions of a history: Commit needs the sizes to fit, SetCacheLimit takes a uint16 *)
-Definition lazy_op (mp : nmap) (o : op) : Prop :=
+Lemma rep_hash d mp t : rep d mp t -> fits_map mp -> db_sound H d ->
+  exists r t', trie_hash H t = Ok (r, t') /\ rep d mp t' /\
+    exists m, denotes m mp /\ lazy_trie H d m t' /\ r = mpt_root_hex H (content_of m).
+Proof.
+  intros (m & Hd & Hz) Hf Hs.
+  destruct (trie_hash_lazy H Hlen Hcf d m t Hz (Hf m Hd) Hs) as (t' & E & Hz').
+  exists (mpt_root_hex H (content_of m)), t'. split; [exact E|]. split; [exists m; auto|]. exists m. auto.
+Qed.
+
+(* ---- ghost state of a history: the denoted map, and the roots committed so far
+   with the map each of them denotes (what a later reopen must reproduce) *)
+Definition snaps := list (bytes * nmap).
+Fixpoint find_snap (r : bytes) (sn : snaps) : option nmap :=
+  match sn with
+  | [] => None
+  | (r', mpr) :: t => if bytes_eqb r' r then Some mpr else find_snap r t
+  end.
+Definition gmap (mp : nmap) (sn : snaps) (o : op) : nmap :=
+  match o with
+  | OpReopen r => match find_snap r sn with Some mpr => mpr | None => mp end
+  | _ => lmap mp o
+  end.
+Definition gsnaps (mp : nmap) (sn : snaps) (o : op) (ob : obs) : snaps :=
+  match o, ob with OpCommit, ORoot r => (r, mp) :: sn | _, _ => sn end.
+
+Definition nonempty_map (mp : nmap) : Prop := exists k v, mp k = Some v.
+(* every key of the map is the nibble form of a byte key *)
+Definition evenmap (mp : nmap) : Prop := forall k v, mp k = Some v -> exists kb, k = hexk kb.
+Definition short_keys (mp : nmap) : Prop := forall m, denotes m mp -> (max_key_len (content_of m) <= 98)%nat.
+
+(* side conditions: Hash / Commit / Iterate / Prove need the RLP sizes to fit 64
+   bits (a derived fact below 4 GiB: fits_of_size); SetCacheLimit takes a uint16;
+   reopen takes a root returned by an earlier Commit of this history, and the two
+   roots trie.New treats as "empty" must not collide with a non-empty content;
+   Iterate: keys of at most 48 bytes (the model's iteration fuel is 200); Prove:
+   the empty trie is excluded (known finding prove-empty-trie-absence-not-verifiable) *)
+Definition lazy_op (mp : nmap) (sn : snaps) (o : op) : Prop :=
   match o with
   | OpUpdate _ _ | OpDelete _ | OpGet _ => True
-  | OpCommit => fits_map mp
+  | OpHash | OpCommit => fits_map mp
   | OpLimit l => l < 65536
-  | _ => False
+  | OpReopen r =>
+    match find_snap r sn with
+    | Some mpr => (r = zero_hash \/ r = empty_root H) -> forall k, mpr k = None
+    | None => False
+    end
+  | OpIterate => fits_map mp /\ short_keys mp
+  | OpProve _ => fits_map mp /\ nonempty_map mp
   end.
-Fixpoint lazy_ops (mp : nmap) (ops : list op) : Prop :=
-  match ops with [] => True | o :: r => lazy_op mp o /\ lazy_ops (lmap mp o) r end.
 (* what each operation must observe, given the map before it *)
 Definition lazy_obs (mp : nmap) (o : op) (ob : obs) : Prop :=
   match o with
   | OpGet k => ob = OVal (mp (hexk k))
-  | OpCommit => exists m, denotes m mp /\ ob = ORoot (mpt_root_hex H (content_of m))
+  | OpHash | OpCommit => exists m, denotes m mp /\ ob = ORoot (mpt_root_hex H (content_of m))
+  | OpIterate => exists m l, denotes m mp /\ ob = OList l /\
+                   map snd l = map snd (content_of m) /\ map (fun kv => hexk (fst kv)) l = map fst (content_of m)
+  | OpProve k => exists p, ob = OProof p (Ok (mp (hexk k)))
   | _ => ob = ODone
   end.
-Fixpoint lazy_trace (mp : nmap) (ops : list op) (obl : list obs) : Prop :=
+(* the side conditions along the actual run (the roots a reopen may use are the
+   ones the run's own Commits returned) *)
+Fixpoint lazy_ok (s : state) (mp : nmap) (sn : snaps) (ops : list op) : Prop :=
+  match ops with
+  | [] => True
+  | o :: rest => lazy_op mp sn o /\
+                 lazy_ok (fst (step H s o)) (gmap mp sn o) (gsnaps mp sn o (snd (step H s o))) rest
+  end.
+Fixpoint lazy_trace (mp : nmap) (sn : snaps) (ops : list op) (obl : list obs) : Prop :=
   match ops, obl with
   | [], [] => True
-  | o :: r, ob :: obr => lazy_obs mp o ob /\ lazy_trace (lmap mp o) r obr
+  | o :: r, ob :: obr => lazy_obs mp o ob /\ lazy_trace (gmap mp sn o) (gsnaps mp sn o ob) r obr
   | _, _ => False
   end.
 
-Lemma lazy_step : forall s o mp, rep (sdb s) mp (strie s) -> db_sound H (sdb s) -> lazy_op mp o ->
-  exists s' ob, step H s o = (s', ob) /\ rep (sdb s') (lmap mp o) (strie s') /\ db_sound H (sdb s') /\
-    lazy_obs mp o ob /\ (forall m0, canon m0 = true -> stored H (sdb s) m0 -> stored H (sdb s') m0).
+Definition snap_ok (d : db) (e : bytes * nmap) : Prop :=
+  exists m, denotes m (snd e) /\ fst e = mpt_root_hex H (content_of m) /\ evenmap (snd e) /\
+            (m <> NNil -> avail H d m).
+Definition inv (s : state) (mp : nmap) (sn : snaps) : Prop :=
+  rep (sdb s) mp (strie s) /\ db_sound H (sdb s) /\ evenmap mp /\ Forall (snap_ok (sdb s)) sn.
+
+Lemma find_snap_in r sn mpr : find_snap r sn = Some mpr -> In (r, mpr) sn.
 Proof.
-  intros s o mp Hr Hs Ho. destruct o as [k v|k|k| | | |l| |]; cbn [lazy_op] in Ho; try contradiction; cbn [step].
+  induction sn as [|[r' m'] sn IH]; cbn [find_snap]; [discriminate|].
+  destruct (bytes_eqb_spec r' r) as [->|]; [intros E; injection E as ->; now left|right; auto].
+Qed.
+Lemma snap_ok_mono d d' e : (forall m0, canon m0 = true -> stored H d m0 -> stored H d' m0) ->
+  snap_ok d e -> snap_ok d' e.
+Proof.
+  intros Hm (m & Hd & Er & He & Hav). exists m. split; [exact Hd|]. split; [exact Er|]. split; [exact He|].
+  intros Hn. exact (avail_mono H d d' m Hm (Hav Hn)).
+Qed.
+Lemma evenmap_lmap mp o : evenmap mp -> evenmap (lmap mp o).
+Proof.
+  intros He. destruct o as [k v|k| | | | | | |]; cbn [lmap]; auto; intros k' v'.
+  - destruct (bytes_eqb_spec (hexk k) k') as [<-|_]; [intros _; eauto|apply He].
+  - destruct (bytes_eqb_spec (hexk k) k') as [<-|_]; [discriminate|apply He].
+Qed.
+Lemma denotes_nonempty m mp : denotes m mp -> m <> NNil -> nonempty_map mp.
+Proof.
+  intros [Hc Hl] Hn. destruct (content_of m) as [|[k v] J] eqn:E.
+  - exfalso. destruct m; try discriminate; [contradiction| |];
+    cbn [canon_root is_nil orb] in Hc; exact (TrieRootProofs.canon_content_ne _ Hc E).
+  - exists k, v. rewrite <- Hl. cbn [lookup fst snd]. now rewrite bytes_eqb_refl.
+Qed.
+
+Lemma rep_reopen d mp sn r : Forall (snap_ok d) sn -> lazy_op mp sn (OpReopen r) ->
+  exists t mpr, find_snap r sn = Some mpr /\ trie_new H r d = Ok t /\ rep d mpr t /\ evenmap mpr.
+Proof.
+  intros Hsn Ho. cbn [lazy_op] in Ho. destruct (find_snap r sn) as [mpr|] eqn:Ef; [|contradiction].
+  pose proof (find_snap_in _ _ _ Ef) as Hin. rewrite Forall_forall in Hsn.
+  destruct (Hsn _ Hin) as (m & Hd & Er & He & Hav). cbn [fst snd] in *.
+  destruct (is_nil m) eqn:En.
+  - destruct m; try discriminate. cbn in Er. subst r. exists empty_trie, mpr. repeat split; auto.
+    + apply trie_new_empty.
+    + exists NNil. split; [exact Hd|apply lazy_empty].
+  - assert (Hn : m <> NNil) by (intros ->; discriminate).
+    assert (Hz : r <> zero_hash /\ r <> empty_root H).
+    { destruct (denotes_nonempty _ _ Hd Hn) as (k0 & v0 & E0).
+      split; intros E; rewrite (Ho (ltac:(auto)) k0) in E0; discriminate. }
+    rewrite Er in Hz. destruct (trie_new_lazy H Hlen d _ (Hav Hn) (proj1 Hz) (proj2 Hz)) as (t & E & Hl).
+    exists t, mpr. rewrite Er. repeat split; auto. exists m. auto.
+Qed.
+
+Lemma rep_iterate d mp t : rep d mp t -> fits_map mp -> short_keys mp -> evenmap mp -> db_sound H d ->
+  exists l t', trie_iterate H t d = Ok (l, t') /\ rep d mp t' /\
+    exists m, denotes m mp /\ map snd l = map snd (content_of m) /\
+              map (fun kv => hexk (fst kv)) l = map fst (content_of m).
+Proof.
+  intros Hr Hf Hk He Hs. destruct (rep_hash _ _ _ Hr Hf Hs) as (r & t' & E & Hr' & m & Hd & Hz & _).
+  unfold trie_iterate. rewrite E. cbn [bind].
+  rewrite (leaves_lazy_trie H Hlen d m t' Hz (Hk m Hd)).
+  assert (Hall : Forall (fun kv => exists kb, fst kv = keybytes_to_hex kb) (content_of m)).
+  { apply Forall_forall. intros [k v] Hin. cbn [fst]. destruct Hd as [Hc Hl].
+    apply (He k v). rewrite <- Hl.
+    exact (proj1 (lookup_in H _ k v (proj1 (canon_root_wf_content _ Hc))) Hin). }
+  destruct (TrieIterProofs.keyed_hexed _ Hall) as (l & El & Hsnd & Hfst).
+  rewrite El. cbn [bind]. exists l, t'. split; [reflexivity|]. split; [exact Hr'|]. exists m. auto.
+Qed.
+
+Lemma nodb_hyp : forall c force d m x, hdb c = false -> canon m = true -> all_fits H m ->
+  lzf H d (negb force) m x -> (force = false -> hash_big H m x) -> db_sound H d ->
+  exists x', hash_node H c x force =
+     Ok (if big H m || force then RHash (H (spec_enc H m)) else RInline (spec_item H m), x', []).
+Proof.
+  intros c force d m x Hc Hm Hf Hl Hb Hs.
+  destruct (hash_node_lazy_nodb H Hlen Hcf c force d m x Hc Hm Hf Hl Hb Hs) as (x' & E & _). eauto.
+Qed.
+
+Lemma rep_prove d mp t k : rep d mp t -> fits_map mp -> nonempty_map mp -> db_sound H d ->
+  exists r t' p, trie_hash H t = Ok (r, t') /\ trie_prove H t' d k = Ok p /\ rep d mp t' /\
+    verify_proof r k p = Ok (mp (hexk k)).
+Proof.
+  intros Hr Hf (k0 & v0 & E0) Hs. destruct (rep_hash _ _ _ Hr Hf Hs) as (r & t' & E & Hr' & m & Hd & Hz & Er).
+  assert (Hn : m <> NNil). { intros ->. destruct Hd as [_ Hl]. rewrite <- Hl in E0. discriminate. }
+  destruct (prove_lazy H Hlen Hcf nodb_hyp d m t' k Hz Hn (Hf m Hd) Hs) as (p & Ep & Ev).
+  exists r, t', p. repeat split; auto. rewrite Er, Ev. destruct Hd as [_ Hl]. now rewrite Hl.
+Qed.
+
+Lemma lazy_step : forall s o mp sn, inv s mp sn -> lazy_op mp sn o ->
+  exists s' ob, step H s o = (s', ob) /\ inv s' (gmap mp sn o) (gsnaps mp sn o ob) /\ lazy_obs mp o ob.
+Proof.
+  intros s o mp sn (Hr & Hs & He & Hsn) Ho.
+  destruct o as [k v|k|k| | |r|l| |k]; cbn [step gmap].
   - destruct v as [|v0 v].
     + destruct (rep_delete _ _ _ k Hr) as (t' & E & Hr').
       change (trie_update (strie s) (sdb s) k []) with (trie_delete (strie s) (sdb s) k). rewrite E.
-      eexists _, _. split; [reflexivity|]. cbn [sdb strie]. repeat split; auto.
+      eexists _, _. split; [reflexivity|]. split; [|reflexivity].
+      repeat split; cbn [sdb strie gsnaps]; auto. apply (evenmap_lmap mp (OpDelete k) He).
     + destruct (rep_update _ _ _ k (v0 :: v) Hr ltac:(discriminate)) as (t' & E & Hr'). rewrite E.
-      eexists _, _. split; [reflexivity|]. cbn [sdb strie]. repeat split; auto.
+      eexists _, _. split; [reflexivity|]. split; [|reflexivity].
+      repeat split; cbn [sdb strie gsnaps]; auto. apply (evenmap_lmap mp (OpUpdate k (v0 :: v)) He).
   - destruct (rep_delete _ _ _ k Hr) as (t' & E & Hr'). rewrite E.
-    eexists _, _. split; [reflexivity|]. cbn [sdb strie]. repeat split; auto.
+    eexists _, _. split; [reflexivity|]. split; [|reflexivity].
+    repeat split; cbn [sdb strie gsnaps]; auto. apply (evenmap_lmap mp (OpDelete k) He).
   - destruct (rep_get _ _ _ k Hr) as (t' & E & Hr'). rewrite E.
-    eexists _, _. split; [reflexivity|]. cbn [sdb strie lmap lazy_obs]. repeat split; auto.
-  - destruct (rep_commit _ _ _ Hr Ho Hs) as (r & t' & d' & E & Hr' & Hs' & Hmono & m & Hd & Er & _). rewrite E.
-    eexists _, _. split; [reflexivity|]. cbn [sdb strie lmap lazy_obs]. repeat split; auto.
-    exists m. split; [exact Hd|now rewrite Er].
-  - eexists _, _. split; [reflexivity|]. cbn [sdb strie lmap lazy_obs]. repeat split; auto.
+    eexists _, _. split; [reflexivity|]. split; [|reflexivity].
+    repeat split; cbn [sdb strie gsnaps lmap]; auto.
+  - cbn [lazy_op] in Ho. destruct (rep_hash _ _ _ Hr Ho Hs) as (r & t' & E & Hr' & m & Hd & _ & Er). rewrite E.
+    eexists _, _. split; [reflexivity|]. split; [|exists m; split; [exact Hd|now rewrite Er]].
+    repeat split; cbn [sdb strie gsnaps lmap]; auto.
+  - cbn [lazy_op] in Ho.
+    destruct (rep_commit _ _ _ Hr Ho Hs) as (r & t' & d' & E & Hr' & Hs' & Hmono & m & Hd & Er & Hav). rewrite E.
+    eexists _, _. split; [reflexivity|]. split; [|exists m; split; [exact Hd|now rewrite Er]].
+    repeat split; cbn [sdb strie gsnaps lmap]; auto.
+    constructor.
+    + exists m. cbn [fst snd]. auto.
+    + eapply Forall_impl; [|exact Hsn]. intros e. now apply snap_ok_mono.
+  - destruct (rep_reopen (sdb s) mp sn r Hsn Ho) as (t & mpr & Ef & E & Hr' & He'). rewrite E, Ef.
+    eexists _, _. split; [reflexivity|]. split; [|reflexivity].
+    repeat split; cbn [sdb strie gsnaps]; auto.
+  - cbn [lazy_op] in Ho. eexists _, _. split; [reflexivity|]. split; [|reflexivity].
+    repeat split; cbn [sdb strie gsnaps lmap]; auto.
     destruct Hr as (m & Hd & Hz). exists m. split; [exact Hd|]. now apply lazy_set_limit.
+  - cbn [lazy_op] in Ho. destruct Ho as [Hf Hk].
+    destruct (rep_iterate _ _ _ Hr Hf Hk He Hs) as (l & t' & E & Hr' & m & Hd & Hsnd & Hfst). rewrite E.
+    eexists _, _. split; [reflexivity|]. split; [|exists m, l; auto].
+    repeat split; cbn [sdb strie gsnaps lmap]; auto.
+  - cbn [lazy_op] in Ho. destruct Ho as [Hf Hne].
+    destruct (rep_prove _ _ _ k Hr Hf Hne Hs) as (r & t' & p & E & Ep & Hr' & Ev). rewrite E, Ep.
+    eexists _, _. split; [reflexivity|]. split; [|exists p; now rewrite Ev].
+    repeat split; cbn [sdb strie gsnaps lmap]; auto.
 Qed.
 
-(* histories of update / delete / get / commit / SetCacheLimit in any order, any
-   number of commits (so with unloading of old cache generations to hash nodes
-   and reloading through the database): every operation succeeds, every get
-   returns what the denoted map says, every Commit returns the specification
-   root of the content at that point, the database stays sound and only grows *)
-Theorem lazy_history : forall ops s mp,
-  rep (sdb s) mp (strie s) -> db_sound H (sdb s) -> lazy_ops mp ops ->
-  exists s' obl, run_ops H s ops = (s', obl) /\ rep (sdb s') (fold_left lmap ops mp) (strie s') /\
-    db_sound H (sdb s') /\ lazy_trace mp ops obl /\
-    (forall m0, canon m0 = true -> stored H (sdb s) m0 -> stored H (sdb s') m0).
+(* THE HISTORY THEOREM.  Histories of update / delete / get / Hash / Commit /
+   reopen / SetCacheLimit / iterate / prove in any order on the trie in its
+   general in-memory form, any number of commits (unloading of old cache
+   generations to hash nodes, reloading through the database, updates and deletes
+   on the lazily loaded trie): every operation succeeds and observes what the
+   denoted finite map gives. *)
+Theorem lazy_history : forall ops s mp sn,
+  inv s mp sn -> lazy_ok s mp sn ops ->
+  exists s' obl, run_ops H s ops = (s', obl) /\ lazy_trace mp sn ops obl /\
+    exists mp' sn', inv s' mp' sn'.
 Proof.
-  induction ops as [|o ops IH]; intros s mp Hr Hs Ho.
-  - exists s, []. cbn. auto.
-  - destruct Ho as [Ho Hos]. destruct (lazy_step s o mp Hr Hs Ho) as (s1 & ob & E1 & Hr1 & Hs1 & Hob & Hm1).
-    destruct (IH s1 (lmap mp o) Hr1 Hs1 Hos) as (s2 & obl & E2 & Hr2 & Hs2 & Ht & Hm2).
-    exists s2, (ob :: obl). cbn [run_ops]. rewrite E1, E2. cbn [fold_left lazy_trace]. repeat split; auto.
+  induction ops as [|o ops IH]; intros s mp sn Hi Ho.
+  - exists s, []. cbn. eauto.
+  - destruct Ho as [Ho Hos].
+    destruct (lazy_step s o mp sn Hi Ho) as (s1 & ob & E1 & Hi1 & Hob).
+    rewrite E1 in Hos. cbn [fst snd] in Hos.
+    destruct (IH s1 _ _ Hi1 Hos) as (s2 & obl & E2 & Ht & mp' & sn' & Hi2).
+    exists s2, (ob :: obl). cbn [run_ops]. rewrite E1, E2. cbn [lazy_trace]. eauto 10.
 Qed.
 
-(* from the empty trie over the empty database *)
-Theorem lazy_history_empty : forall ops, lazy_ops (fun _ => None) ops ->
-  exists s' obl, run_ops H init_state ops = (s', obl) /\
-    rep (sdb s') (fold_left lmap ops (fun _ => None)) (strie s') /\ db_sound H (sdb s') /\
-    lazy_trace (fun _ => None) ops obl.
+Lemma inv_init : inv init_state (fun _ => None) [].
 Proof.
-  intros ops Ho.
-  destruct (lazy_history ops init_state (fun _ => None)) as (s' & obl & E & Hr & Hs & Ht & _); auto.
+  repeat split.
   - exists NNil. split; [split; [reflexivity|intros k; reflexivity]|apply lazy_empty].
   - intros h e Hd. discriminate Hd.
-  - exists s', obl. auto.
+  - intros k v E. discriminate E.
+  - constructor.
+Qed.
+
+Theorem lazy_history_empty : forall ops,
+  lazy_ok init_state (fun _ => None) [] ops ->
+  exists s' obl, run_ops H init_state ops = (s', obl) /\ lazy_trace (fun _ => None) [] ops obl.
+Proof.
+  intros ops Ho. destruct (lazy_history ops init_state _ _ inv_init Ho) as (s' & obl & E & Ht & _).
+  eauto.
 Qed.
 
 (* reopening: once a trie denoting mp has been committed into d (avail), trie.New
